@@ -19,6 +19,8 @@ Requests
   `ufb <Ty> <dest Py | D> <src Py>`     update_from_builtin (D = fresh `C()`)    → `ok <Py>` | `err <kind>`
   `hasty <strict 0/1> <Ty> <Py>`        well-typedness                           → `1` | `0`
   `default <Ty>`                        `C()` / field default                    → `<Py>`
+  `aliases <n> (<name> <major> <minor>)*n`  package aliases `Name_M`              → `(<name> <major> <newest minor>)*` | `-`
+  `import <k> <dotted module path>*k <dotted namespace>`  `do_import` of get_class over that package tree → path | `none`
 Errors: `value` `type` `overflow` `other`; outside the modelled domain the answer is `unmodelled`.
 -/
 open NunavutVerif NunavutVerif.PyObj NunavutVerif.Proto
@@ -235,6 +237,30 @@ def answer (line : String) : String :=
       | some (x, []) => b01 (hasTy s t x)
       | _ => "bad-op"
     | _, _ => "bad-op"
+  | "aliases" :: n :: r =>
+    let rec go : Nat → Toks → Option (List TyId)
+      | 0, [] => some []
+      | k + 1, nm :: ma :: mi :: rest => do
+        let ma ← ma.toNat?; let mi ← mi.toNat?
+        let ts ← go k rest
+        pure (⟨nm, ma, mi⟩ :: ts)
+      | _, _ => none
+    match n.toNat?.bind (fun n => go n r) with
+    | some tys =>
+      let out := (aliases tys).map fun t => s!"{t.name} {t.major} {t.minor}"
+      if out.isEmpty then "-" else " ".intercalate out
+    | none => "bad-op"
+  | "import" :: k :: r =>
+    match k.toNat? with
+    | some k =>
+      if r.length = k + 1 then
+        let tree := (r.take k).map (fun p => p.splitOn ".")
+        let comps := (r.getD k "").splitOn "."
+        match doImport (fun p => tree.contains p) [] comps with
+        | some p => ".".intercalate p
+        | none => "none"
+      else "bad-op"
+    | none => "bad-op"
   | "default" :: r =>
     match parseTy fuel r with
     | some (t, []) => showPy (defaultVal t)
